@@ -486,7 +486,13 @@ impl Runner {
                 let up = s.trim_start().to_ascii_uppercase();
                 up.starts_with("CHECKPOINT") || up.starts_with("ROLLBACK")
             }
-            _ => true,
+            _ => {
+                // NODE LIST / EDGE LIST / FIND build a tokio runtime of their own and block on it; awaited
+                // from any runtime they panic ("Cannot start a runtime from within a runtime"). That is a
+                // defect of the async entry point but not one of this property, so they stay synchronous.
+                let up = s.trim_start().to_ascii_uppercase();
+                !(up.starts_with("NODE LIST") || up.starts_with("EDGE LIST") || up.starts_with("FIND "))
+            }
         }
     }
 
